@@ -161,7 +161,7 @@ impl<'s, T: DiffableStr + ?Sized> InlineChange<'s, T> {
     /// Returns `true` if this change does not end in a newline and must be
     /// followed up by one if line based diffs are used.
     pub fn missing_newline(&self) -> bool {
-        !self.values.last().map_or(true, |x| x.1.ends_with_newline())
+        !self.values.last().map_or(false, |x| x.1.ends_with_newline())
     }
 }
 
@@ -283,6 +283,10 @@ where
             }
         }
     }
+
+    // lines that produce no tokens (empty lines) have not been seen above.
+    old_values.resize_with(old_slices.len(), Vec::new);
+    new_values.resize_with(new_slices.len(), Vec::new);
 
     let mut rv = Vec::new();
 
